@@ -22,7 +22,8 @@ DIMS = {
     "cipherNames": [None, ["aes128"], ["aes256gcm"], ["chacha20-poly1305"], ["3des"], ["aes128ccm", "aes256ccm"],
                     ["aes128gcm", "aes128"], "reversed"],
     "macNames": [None, ["sha"], ["sha256"], ["aead"], ["sha384", "aead"], ["sha", "md5"]],
-    "keyExchangeNames": [None, ["rsa"], ["dhe_rsa"], ["ecdhe_rsa"], ["ecdhe_ecdsa"], ["ecdhe_rsa", "rsa"]],
+    "keyExchangeNames": [None, ["rsa"], ["dhe_rsa"], ["ecdhe_rsa"], ["ecdhe_ecdsa"], ["ecdhe_rsa", "rsa"], ["dh_anon"],
+                         ["ecdh_anon", "dh_anon"]],
     "eccCurves": [None, ["secp256r1"], ["x25519"], ["secp384r1", "secp521r1"], ["x448", "secp256r1"], []],
     "dhGroups": [None, ["ffdhe2048"], ["ffdhe3072", "ffdhe4096"]],
     "keySize": [None, (2048, 8193), (1023, 1536), (512, 1024)],
@@ -31,7 +32,7 @@ DIMS = {
     "record_size_limit": [None, 64, 0, 16384, 1000],
     "alpn": [None, [b"h2", b"http/1.1"], [b"http/1.1"], [b"spdy/3"]],
 }
-SERVER_CREDS = ["rsa", "ecdsa", "rsapss", "rsa+req", "rsa+reqnone", "ecdsa+req"]
+SERVER_CREDS = ["rsa", "ecdsa", "rsapss", "rsa+req", "rsa+reqnone", "ecdsa+req", "anon"]
 
 
 def make_settings(choice):
@@ -96,6 +97,14 @@ def view(conn, role):
         return hashlib.sha256(b"".join(bytes(x.bytes) for x in ch.x509List)).hexdigest()[:16]
     g = conn.ecdhCurve
     gname = GroupName.toStr(g) if g is not None else ""
+    if g is None and role == "c" and ver < 4 and getattr(conn, "_verif_dh_p", None):
+        # finite-field DHE: identify the prime the server sent (recorded by the wrapper in _run_pair)
+        from tlslite.mathtls import RFC7919_GROUPS
+        names = ["ffdhe2048", "ffdhe3072", "ffdhe4096", "ffdhe6144", "ffdhe8192"]
+        gname = "custom-%d" % int(conn._verif_dh_p).bit_length()
+        for nm, (gg, pp) in zip(names, RFC7919_GROUPS):
+            if int(pp) == int(conn._verif_dh_p):
+                gname = nm
     keybits = 0
     if role == "c" and s.serverCertChain is not None and s.serverCertChain.x509List:
         x = s.serverCertChain.x509List[0]
@@ -133,6 +142,18 @@ def candidates():
     return _CAND
 
 
+def _watch_dh(conn):
+    """remember the finite-field prime of the ServerKeyExchange the client received"""
+    orig = conn._getMsg
+
+    def _getMsg(*a, **kw):
+        for r in orig(*a, **kw):
+            if r not in (0, 1) and getattr(r, "dh_p", None):
+                conn._verif_dh_p = r.dh_p
+            yield r
+    conn._getMsg = _getMsg
+
+
 def run_pair(job):
     idx, cchoice, schoice, scred = job
     try:
@@ -146,14 +167,23 @@ def _run_pair(idx, cchoice, schoice, scred):
     from ..endpoints import Pair, cred
     chs, calpn = make_settings(cchoice)
     shs, salpn = make_settings(schoice)
+    if scred == "anon":
+        # anonymous key exchange exists only up to TLS 1.2
+        for hs in (chs, shs):
+            if hs.minVersion > (3, 3):
+                return {"skip": "anonymous suites need TLS <= 1.2"}
+            hs.maxVersion = min(hs.maxVersion, (3, 3))
     try:
         cabs = abstract(chs, calpn)
         sabs = abstract(shs, salpn)
     except ValueError as e:
         return {"skip": "settings rejected by validate(): %s" % e}
     p = Pair("c03-%d" % idx)
+    _watch_dh(p.c)
     scred_full = scred
     scred, _, ca = scred.partition("+")
+    if scred == "anon":
+        return _run_anon(idx, p, chs, calpn, shs, salpn, cabs, sabs, cchoice, schoice)
     ch, key = cred(scred)
     ckw = dict(settings=chs, serverName="host.example")
     cltbits = 0
@@ -195,6 +225,34 @@ def _run_pair(idx, cchoice, schoice, scred):
             res["s_out"] = "late:" + o.describe()
         res["c"] = res["s"] = {}
     return {"trace": [cfg, res], "job": [idx, cchoice, schoice, scred_full]}
+
+
+def _run_anon(idx, p, chs, calpn, shs, salpn, cabs, sabs, cchoice, schoice):
+    """anonymous (EC)DH: no certificate; both sides must enable the anonymous key exchanges"""
+    for hs, ab in ((chs, cabs), (shs, sabs)):
+        if not set(hs.keyExchangeNames) & {"dh_anon", "ecdh_anon"}:
+            return {"skip": "anonymous key exchange not enabled by this choice"}
+    ckw = dict(settings=chs, serverName="host.example", async_=True)
+    if calpn:
+        return {"skip": "handshakeClientAnonymous has no alpn argument"}
+    skw = dict(anon=True, settings=shs)
+    if salpn:
+        skw["alpn"] = salpn
+    st, co, so = p.run(p.c.handshakeClientAnonymous(**ckw), p.s.handshakeServerAsync(**skw))
+    ok = co.ok and so.ok
+    cfg = {"ev": "CFG", "cs": cabs, "ss": sabs, "certKey": "anon", "certBits": 0, "cltBits": 0, "clientAuth": "",
+           "certCurve": "", "candidates": candidates()}
+    res = {"ev": "RES", "ok": ok, "cfail": co.exc is not None, "sfail": so.exc is not None,
+           "c_out": co.describe(), "s_out": so.describe(), "status": st}
+    if ok:
+        res["c"] = view(p.c, "c")
+        res["s"] = view(p.s, "s")
+        p.write("c", b"ping")
+        o = p.read("s", None, 4)
+        res["data"] = bool(o.ok and bytes(o.value or b"") == b"ping")
+    else:
+        res["c"] = res["s"] = {}
+    return {"trace": [cfg, res], "job": [idx, cchoice, schoice, "anon"]}
 
 
 def enumerate_jobs(tier, seed):
